@@ -21,7 +21,7 @@ ASSUMPTIONS = [
     'absolute URLs, source links and intersphinx links are not followed; the three built-in themes only',
     'a page "exists" when the file was written by this run into a fresh output directory',
 ]
-FLOOR = {'quick': 300, 'thorough': 3000}
+FLOOR = {'quick': 300, 'thorough': 2000}
 SPACE = {'quick': 'feature singles x 9 configurations; all feature pairs (default configuration)', 'thorough': 'feature pairs x 4 configurations; all triples of 14 core features'}
 JOB_TIMEOUT = 2300
 CORE14 = ['subclass', 'inh-doc-xref', 'summary-xref', 'xrefs', 'annot', 'generic-base', 'reexport', 'dup', 'private', 'hidden-base', 'hidden-member', 'nested', 'same-name', 'two-roots']
